@@ -717,6 +717,9 @@ class Sim:
         scn = self.scn
         h = self.h
         dev_spec = scn["device"]
+        if getattr(self, "device_object", None) is not None:
+            # the caller continues with a Device object it already holds (and may have edited in place)
+            return self.device_object
         device = B.build_device(dev_spec, mesh_from=self.mesh_from, history=scn.get("device_history"))
         self.base_mesh = device.mesh  # the dimensionless mesh before any life cycle touched the device
         used = scn.get("device_used_before") or scn.get("env", {}).get("device_used_before")
@@ -1064,8 +1067,9 @@ def classify_discard(h):
     return None
 
 
-def run_scenario(scn, checkers=(), trace=None, root=None, mesh_from=None, psi_init_hook=None, seed_solution=None, options_from=None, options_as_is=None):
+def run_scenario(scn, checkers=(), trace=None, root=None, mesh_from=None, psi_init_hook=None, seed_solution=None, options_from=None, options_as_is=None, device_object=None):
     sim = Sim(scn, checkers=checkers, trace=trace, root=root, mesh_from=mesh_from)
+    sim.device_object = device_object
     sim.psi_init_hook = psi_init_hook
     sim.seed_solution = seed_solution
     sim.options_from = options_from
